@@ -476,22 +476,37 @@ fn exec_defs(c: &mut Choices) -> (Vec<Definition>, &'static str) {
     let (mut defs, source) = if c.bool(60) {
         (syntax::document(c, &syntax::Cfg { max_depth: 2, executable: true, type_system: false }).defs, "grammatical-random")
     } else {
-        let n = 1 + c.small(6);
+        let n = 2 + c.small(5);
         ((0..n).map(|_| e_def(c)).collect::<Vec<_>>(), "fixed-schema-operations")
     };
     fix_shorthand(&mut defs);
     (defs, source)
 }
 
+/// Chunking decisions, drawn BEFORE the definitions so that they are not starved by a short
+/// choice stream.
+struct Plan {
+    k: usize,
+    fracs: [u8; 4],
+    adopt: bool,
+}
+
+fn plan(c: &mut Choices) -> Plan {
+    let k = 1 + c.weighted(&[10, 40, 25, 15, 10]);
+    let fracs = [c.byte(), c.byte(), c.byte(), c.byte()];
+    let adopt = c.bool(40);
+    Plan { k, fracs, adopt }
+}
+
 /// Cut `n` definitions into 1-5 consecutive non-empty chunks; returns the chunk sizes.
-fn cut(c: &mut Choices, n: usize) -> Vec<usize> {
+fn cut(p: &Plan, n: usize) -> Vec<usize> {
     if n == 0 {
         return vec![];
     }
-    let k = (1 + c.weighted(&[10, 40, 25, 15, 10])).min(n);
+    let k = p.k.min(n);
     let mut cuts: BTreeSet<usize> = BTreeSet::new();
-    for _ in 1..k {
-        cuts.insert(1 + c.choose(n - 1));
+    for i in 1..k {
+        cuts.insert(1 + ((p.fracs[i - 1] as usize * (n - 1)) >> 8));
     }
     let mut sizes = vec![];
     let mut prev = 0;
@@ -668,9 +683,9 @@ fn run_chunks(chunks: &[String], exec: bool, adopt: bool, ctx: &mut Ctx) -> Outc
     ctx.pick_failure(fails)
 }
 
-fn chunk_case(defs: Vec<Definition>, source: &'static str, exec: bool, c: &mut Choices, ctx: &mut Ctx) -> Outcome {
-    let sizes = cut(c, defs.len());
-    let adopt = !exec && c.bool(40);
+fn chunk_case(defs: Vec<Definition>, source: &'static str, exec: bool, p: &Plan, ctx: &mut Ctx) -> Outcome {
+    let sizes = cut(p, defs.len());
+    let adopt = !exec && p.adopt;
     let chunks = print_chunks(&defs, &sizes);
     ctx.set_sample(render_chunks(&chunks, exec, adopt));
     ctx.class(format!("chunks:{}", sizes.len()));
@@ -698,17 +713,19 @@ fn chunk_case(defs: Vec<Definition>, source: &'static str, exec: bool, c: &mut C
 
 pub fn check_chunks_schema(bytes: &[u8], ctx: &mut Ctx) -> Outcome {
     let mut c = Choices::new(bytes);
+    let p = plan(&mut c);
     let (defs, source, muts) = ts_defs(&mut c);
     for m in muts {
         ctx.class(format!("mutation:{m}"));
     }
-    chunk_case(defs, source, false, &mut c, ctx)
+    chunk_case(defs, source, false, &p, ctx)
 }
 
 pub fn check_chunks_exec(bytes: &[u8], ctx: &mut Ctx) -> Outcome {
     let mut c = Choices::new(bytes);
+    let p = plan(&mut c);
     let (defs, source) = exec_defs(&mut c);
-    chunk_case(defs, source, true, &mut c, ctx)
+    chunk_case(defs, source, true, &p, ctx)
 }
 
 fn is_builtin_name(n: &str) -> bool {
@@ -734,6 +751,9 @@ fn compare_moved(orig_text: &str, moved_text: &str, ctx: &mut Ctx) -> Outcome {
 
 pub fn check_moved(bytes: &[u8], ctx: &mut Ctx) -> Outcome {
     let mut c = Choices::new(bytes);
+    // decisions about the move are drawn first so that a short stream does not starve them
+    let pre = c.bytes(10);
+    let mut pc = Choices::new(&pre);
     let (mut defs, source, muts) = ts_defs(&mut c);
     // executable definitions are irrelevant here and could interact with open-ended definitions
     defs.retain(|d| !d.is_executable());
@@ -763,15 +783,15 @@ pub fn check_moved(bytes: &[u8], ctx: &mut Ctx) -> Outcome {
         out
     };
     let mut cands = candidates(&defs);
-    if cands.is_empty() || c.bool(50) {
+    if cands.is_empty() || pc.bool(50) {
         // synthesize an extension (same kind or not) after a type definition
         let tdefs: Vec<usize> = defs.iter().enumerate().filter(|(_, d)| matches!(d, Definition::Type(t) if !t.is_ext && !is_builtin_name(&t.name))).map(|(i, _)| i).collect();
         if !tdefs.is_empty() {
-            let i = tdefs[c.choose(tdefs.len())];
+            let i = tdefs[pc.choose(tdefs.len())];
             if let Definition::Type(t) = &defs[i] {
-                let kind = if c.bool(100) { c.pick(&TypeKind::ALL) } else { t.kind };
-                let e = synth_ext(&mut c, kind, &t.name.clone());
-                let at = i + 1 + c.choose(defs.len() - i);
+                let kind = if pc.bool(100) { pc.pick(&TypeKind::ALL) } else { t.kind };
+                let e = synth_ext(&mut pc, kind, &t.name.clone());
+                let at = i + 1 + pc.choose(defs.len() - i);
                 defs.insert(at, Definition::Type(e));
             }
             cands = candidates(&defs);
@@ -781,8 +801,12 @@ pub fn check_moved(bytes: &[u8], ctx: &mut Ctx) -> Outcome {
         ctx.set_sample(printer::print_document(&Document { defs }));
         return ctx.skip("no definition followed by one of its extensions");
     }
-    let (key, d, after) = cands[c.choose(cands.len())].clone();
-    let p = 1 + c.choose(after.len());
+    let pick = match cands.iter().position(|(k, _, _)| k == "schema") {
+        Some(i) if pc.bool(100) => i,
+        _ => pc.choose(cands.len()),
+    };
+    let (key, d, after) = cands[pick].clone();
+    let p = 1 + pc.choose(after.len());
     let orig = defs.clone();
     // lower bound: just after the last sibling extension that already precedes the definition
     let lb = defs[..d].iter().rposition(|x| ext_key(x) == Some((key.clone(), true))).map(|i| i + 1).unwrap_or(0);
@@ -790,7 +814,8 @@ pub fn check_moved(bytes: &[u8], ctx: &mut Ctx) -> Outcome {
     for &j in after[..p].iter().rev() {
         moving.insert(0, defs.remove(j));
     }
-    let mut slots: Vec<usize> = (0..p).map(|_| lb + c.choose(d - lb + 1)).collect();
+    // mostly directly before the definition or anywhere in the allowed range
+    let mut slots: Vec<usize> = (0..p).map(|_| if pc.coin() { d } else { lb + pc.choose(d - lb + 1) }).collect();
     slots.sort();
     let mut kinds_mismatch = false;
     let def_kind = match &defs[d] {
